@@ -10,7 +10,8 @@ import os, json, hashlib, time
 from concurrent.futures import ThreadPoolExecutor
 import vcheck, conc_check
 
-# variant id -> (name, harness group, model configuration (moir, item counter, hp) or None = observable only)
+# variant id -> (name, harness group, model configuration (moir, item counter, hp) or None = observable only
+#                [, model: "ms" = LV.Model.MSQueue (default), "rw" = LV.Model.RWQueue])
 VARIANTS = {
     0: ("container::MSQueue<HP>", 0, (0, 0, 1)),
     1: ("container::MoirQueue<HP>", 0, (1, 0, 1)),
@@ -42,8 +43,10 @@ VARIANTS = {
     33: ("container::OptimisticQueue<HP,seq_cst>", 3, None),
     34: ("intrusive::OptimisticQueue<HP>", 3, None),
     35: ("intrusive::OptimisticQueue<DHP>", 3, None),
-    40: ("container::RWQueue", 4, None),
-    41: ("container::RWQueue<item_counter>", 4, None),
+    40: ("container::RWQueue<non-reusing allocator>", 4, (0, 0, 0), "rw"),
+    41: ("container::RWQueue<non-reusing allocator,item_counter>", 4, (0, 1, 0), "rw"),
+    47: ("container::RWQueue", 4, None),
+    48: ("container::RWQueue<item_counter>", 4, None),
     42: ("container::FCQueue<std::queue>", 4, None),
     43: ("container::FCQueue<std::queue,elimination>", 4, None),
     44: ("container::FCQueue<std::queue<list>,elimination>", 4, None),
@@ -51,21 +54,39 @@ VARIANTS = {
     46: ("intrusive::FCQueue<boost::intrusive::list,elimination>", 4, None),
 }
 GROUPS = [0, 1, 2, 3, 4]
+
+
+def model_kind(var):
+    v = VARIANTS[var]
+    if v[2] is None:
+        return None
+    return v[3] if len(v) > 3 else "ms"
+
 LOOP_FUEL = 400
 
 
 def group_extra(g):
-    ex = ["-DC06_GROUP=%d" % g]
+    return ("-DC06_GROUP=%d" % g,)
+
+
+def group_libs(g):
+    return ("-lboost_thread", "-lboost_system") if g == 4 else ()     # boost::thread_specific_ptr of the FC kernel
+
+
+def group_variants(g):
+    """variants of a harness group in generation order; the flat-combining queues spin (every spin is a scheduling
+    point, ~10x the steps of the others), so the two-lock queue gets three slots for each of theirs"""
+    vs = sorted(v for v in VARIANTS if VARIANTS[v][1] == g)
     if g == 4:
-        ex += ["-Wl,--no-as-needed", "-lboost_thread", "-lboost_system"]     # boost::thread_specific_ptr of the FC kernel
-    return tuple(ex)
+        return [40, 41] * 3 + [47, 48] + [v for v in vs if 42 <= v <= 46]
+    return vs
 
 
 def build_harnesses(ctx):
     vcheck.libcds(True)        # once, before the parallel harness builds
     src = os.path.join(vcheck.VERIF, "harness/C06/main.cpp")
     def one(g):
-        return g, vcheck.cxx_build(src, os.path.join(ctx.work, "h%d" % g), hook=True, extra=group_extra(g), timeout=1200)
+        return g, vcheck.cxx_build(src, os.path.join(ctx.work, "h%d" % g), hook=True, extra=group_extra(g), timeout=1200, libs=group_libs(g))
     exes = {}
     errs = []
     with ThreadPoolExecutor(max_workers=len(GROUPS)) as ex:
@@ -225,11 +246,11 @@ def run_group(ctx, g, exes, model, cases, tag):
     conc_check.write_cases(cf, cases)
     mlog = {}
     t0 = time.time()
-    if model is not None and any(VARIANTS[c["cfg"][4]][2] is not None for c in cases):
-        rc1, out1 = vcheck.sh("%s %d < %s" % (model, 20000, cf), timeout=900)
-        mlog = conc_check.parse_logs(out1)
+    for kind in sorted(set(model_kind(c["cfg"][4]) for c in cases) - {None}) if model is not None else []:
+        rc1, out1 = vcheck.sh("%s %d < %s" % (model[kind], 20000, cf), timeout=900)
+        mlog[kind] = conc_check.parse_logs(out1)
     t1 = time.time()
-    rc2, out2 = vcheck.sh([exes[g], cf], timeout=900)
+    rc2, out2 = vcheck.sh([exes[g], cf], timeout=400 if ctx.thorough() else 240)
     ctx.log("group %d (%s): %d cases, model %.1fs, implementation %.1fs" % (g, tag, len(cases), t1 - t0, time.time() - t1))
     return mlog, conc_check.parse_logs(out2), rc2
 
@@ -253,7 +274,7 @@ def analyse(ctx, cases, mlog, ilog, lin, stats, label):
             st["overrun"] += 1
             continue
         if VARIANTS[var][2] is not None:
-            m = mlog.get(c["id"])
+            m = mlog.get(model_kind(var), {}).get(c["id"])
             if m is None:
                 st["diverged"] += 1
                 first_div = first_div or (c, {"index": -1, "model": "<no output from the model>", "impl": "ok", "prefix": []})
@@ -282,6 +303,21 @@ def analyse(ctx, cases, mlog, ilog, lin, stats, label):
     return first_div, bad
 
 
+def report_crash(ctx, cases, ilog, rc):
+    """the harness died (signal / abort inside the real queue): the first case without a complete log is the failing input"""
+    if rc == 0:
+        return False
+    for c in cases:
+        i = ilog.get(c["id"])
+        if i is None or i["end"] is None:
+            var = c["cfg"][4]
+            how = "hung (no progress within the time limit: a loop of the real queue no longer terminates)" if rc == 124 else "crashed (exit status %d)" % rc
+            ctx.violation("the harness %s while running %s under the scheduler" % (how, VARIANTS[var][0].split("<")[0]),
+                          {"variant": VARIANTS[var][0], "exit_status": rc, "case": c, "partial_log": (i or {}).get("lines", [])[-60:]})
+            return True
+    return False
+
+
 def report_bad(ctx, bad, ilogs):
     for c, h, v in bad:
         var = c["cfg"][4]
@@ -294,7 +330,8 @@ def run(ctx):
     res = vcheck.coq_build(["Properties/Properties_C06.v"])
     ctx.coq_evidence(res)
     lin = build_lincheck(ctx)
-    model = conc_check.build_model(ctx, "Extract_MSQueue.v")
+    model = {"ms": conc_check.build_model(ctx, "Extract_MSQueue.v"),
+             "rw": conc_check.build_model(ctx, "Extract_RWQueue.v", tag="model_rw")}
     exes = build_harnesses(ctx)
     ctx.log("built: coq %s (%.0fs), lincheck, model, %d harness groups" % ("ok" if res.ok else "FAILED", res.wall_s, len(exes)))
     stats = {}
@@ -307,11 +344,13 @@ def run(ctx):
             ctx.log("replay file has no case (no failing input was found when it was written)")
             return ctx.finish(vcheck.STD_TRUSTED)
         g = VARIANTS[c["cfg"][4]][1]
-        mlog, ilog, _ = run_group(ctx, g, exes, model, [c], "replay")
+        mlog, ilog, rc = run_group(ctx, g, exes, model, [c], "replay")
         div, bad = analyse(ctx, [c], mlog, ilog, lin, stats, "replay")
         report_bad(ctx, bad, ilog)
+        if report_crash(ctx, [c], ilog, rc):
+            bad = [None]
         if div is not None and not bad:
-            ctx.violation("step correspondence between LV.Model.MSQueue and the real queue no longer holds on the replayed case",
+            ctx.violation("step correspondence between the Coq model and the real queue no longer holds on the replayed case",
                           {"case": c, "first_divergence": div[1]}, no_input=True)
         ctx.log("replay: lincheck %s, divergence %s" % ("NOT OK" if bad else "OK", div[1] if div else None))
         return ctx.finish(vcheck.STD_TRUSTED)
@@ -323,7 +362,7 @@ def run(ctx):
         if f.endswith(".json"):
             corpus.append(json.load(open(os.path.join(cdir, f))))
     scale = 5 if ctx.thorough() else 1
-    per_group = {0: 1000 * scale, 1: 640 * scale, 2: 600 * scale, 3: 600 * scale, 4: 700 * scale}
+    per_group = {0: 1000 * scale, 1: 640 * scale, 2: 600 * scale, 3: 600 * scale, 4: 330 * scale}
     all_cases = []
     first_div = None
     all_bad = []
@@ -331,7 +370,7 @@ def run(ctx):
     samples = []
     gcases = {}
     for g in GROUPS:
-        vs = sorted(v for v in VARIANTS if VARIANTS[v][1] == g)
+        vs = group_variants(g)
         gcases[g] = [c for c in corpus if VARIANTS.get(c["cfg"][4], (None, -1))[1] == g] + \
                     gen_cases(ctx.rng.fork(), vs, per_group[g], "g%d_" % g)
     # the groups are independent processes: run them side by side, then decide the histories side by side
@@ -350,6 +389,8 @@ def run(ctx):
         stats.update(st)
         report_bad(ctx, bad, runs[g][1])
         all_bad += bad
+        if report_crash(ctx, cases, runs[g][1], runs[g][2]):
+            all_bad.append(None)
         if div is not None and first_div is None:
             first_div = div
         for c in cases:
@@ -362,20 +403,25 @@ def run(ctx):
         c, d = first_div
         var = c["cfg"][4]
         g = VARIANTS[var][1]
-        vs = sorted(v for v in VARIANTS if VARIANTS[v][1] == g)
+        vs = group_variants(g)
         found = False
         for rnd in range(3):
             more = gen_cases(ctx.rng.fork(), vs, 3000, "s%d_" % rnd)
-            _, il2, _ = run_group(ctx, g, exes, None, more, "search")
+            _, il2, rc2 = run_group(ctx, g, exes, None, more, "search")
             st2 = {}
             _, bad2 = analyse(ctx, more, {}, il2, lin, st2, "search")
             if bad2:
                 report_bad(ctx, bad2, il2)
                 found = True
                 break
+            if report_crash(ctx, more, il2, rc2):
+                found = True
+                break
         if not found:
-            ctx.violation("step correspondence between LV.Model.MSQueue and %s no longer holds" % VARIANTS[var][0],
-                          {"correspondence": "coq/Model/MSQueue.v vs cds/intrusive/msqueue.h, moir_queue.h, cds/container/msqueue.h, cds/gc/hp.h (protect/retire)",
+            mk = model_kind(var)
+            ctx.violation("step correspondence between LV.Model.%s and %s no longer holds" % ("RWQueue" if mk == "rw" else "MSQueue", VARIANTS[var][0]),
+                          {"correspondence": "coq/Model/RWQueue.v vs cds/container/rwqueue.h, cds/sync/spinlock.h" if mk == "rw" else
+                                             "coq/Model/MSQueue.v vs cds/intrusive/msqueue.h, moir_queue.h, cds/container/msqueue.h, cds/gc/hp.h (protect/retire)",
                            "variant": VARIANTS[var][0], "case": c, "first_divergence": d,
                            "searched": "9000 further program x schedule pairs of this group, all histories linearizable"}, no_input=True)
     if not res.ok:
@@ -403,8 +449,8 @@ def run(ctx):
         "traces_validated_against_impl": sum(st["cases"] - st["diverged"] - st["overrun"] for st in pv.values() if st["level"] == "step"),
         "corpus_cases": len(corpus),
         "samples": samples,
-        "modelled": "cds::container::MSQueue / MoirQueue (enqueue, dequeue over intrusive enqueue / do_dequeue / dispose_node; HP and DHP guard traffic; item counter)",
-        "not_modelled_observable_only": "BasketQueue, OptimisticQueue, RWQueue, FCQueue (+elimination): histories decided by the verified lincheck only",
+        "modelled": "cds::container / cds::intrusive MSQueue and MoirQueue (enqueue, dequeue over intrusive enqueue / do_dequeue / dispose_node; HP and DHP guard traffic; item counter); cds::container::RWQueue (enqueue, dequeue, spin locks)",
+        "not_modelled_observable_only": "BasketQueue, OptimisticQueue, FCQueue (+elimination), RWQueue with the default allocator: histories decided by the verified lincheck only",
     })
     return ctx.finish(vcheck.STD_TRUSTED + [
         "hook layer: khizmax_libcds_verif::atomic<T>, baton scheduler, event log (hooks/include)",
@@ -413,4 +459,5 @@ def run(ctx):
         ["smr_safe: the model's allocator never reuses a node (conclusion of C01/C02 for gc::HP / gc::DHP)",
          "sequential consistency: memory_order arguments are not modelled (relaxed and seq_cst trait variants are both run)",
          "compare_exchange_weak never fails spuriously under the hook",
-         "BasketQueue, OptimisticQueue, RWQueue, FCQueue: no Coq theorem in this check; lincheck on sampled schedules only"])
+         "BasketQueue, OptimisticQueue, FCQueue: no Coq theorem in this check; lincheck on sampled schedules only",
+         "RWQueue step correspondence uses an allocator that frees nodes after the case (the default allocator variant is observable only)"])
